@@ -101,7 +101,7 @@ def run_check(prop: Prop, argv=None) -> int:
 
     # 2. correspondence / property streams -------------------------------------------------------
     rep = Report()
-    rng = random.Random((args.seed * 1000003) ^ hash(pid) % 65521)
+    rng = random.Random(args.seed * 1000003 + sum(ord(ch) * 131 ** i for i, ch in enumerate(pid)))
     infra_error = None
     try:
         if args.replay:
